@@ -32,13 +32,16 @@ type convOutcome struct {
 // (the host's documented value: 1969 years x 365 days + 477 leap days, times 86400, before the epoch).
 const zeroTimeUnixSeconds = -(1969*365 + 1969/4 - 1969/100 + 1969/400) * 86400
 
-// wholeTexts: whole numbers whose decimal text is read back exactly by any reader (magnitude below 2^53), of both
-// signs: small ones, the bounds of 32 bits, powers of ten and of two up to 2^53-1, and the counts around the largest
-// number of milliseconds / microseconds a time span holds (numbers that are not time spans must not be read as such).
+// wholeTexts: whole numbers of both signs: small ones, the bounds of 32 bits, powers of ten and of two, the counts
+// around the largest number of milliseconds / microseconds a time span holds (numbers that are not time spans must
+// not be read as such), and numbers beyond 2^53 up to the ends of the 64-bit range, which a reader that goes through a
+// double does not give back (the pinned tree did: String -> Long through the commons converter's ParseFloat; repaired
+// in /repo, known_findings.json).
 func wholeTexts(asText bool) []interface{} {
 	var out []interface{}
 	for _, n := range []int64{0, 1, 7, 255, 65536, math.MaxInt32, int64(math.MaxInt32) + 1, 4294967296, 1700000000000, 9223372036854, 9223372036855, 9223372036, 9223372037,
-		10000000000000, 123456789012345, int64(1) << 40, int64(1) << 50, int64(1)<<53 - 1, 9007199254740881, 1000000000000000} {
+		10000000000000, 123456789012345, int64(1) << 40, int64(1) << 50, int64(1)<<53 - 1, 9007199254740881, 1000000000000000,
+		int64(1)<<53 + 1, 9223372036854775, 1234567890123456789, math.MaxInt64} {
 		for _, k := range []int64{n, -n} {
 			if k == 0 && n != 0 {
 				continue
@@ -54,9 +57,11 @@ func wholeTexts(asText bool) []interface{} {
 }
 
 // convNumerals gives the converters of the commons module (another module: opaque to the machine) their meaning
-// where it is beyond doubt: whole numbers of magnitude below 2^53 and truth values as decimal / true-false texts and
-// back, and a plain whole number read as a time span counts milliseconds (in the host's int64 nanoseconds).
-var reWholeText = regexp.MustCompile(`^(0|-?[1-9][0-9]{0,15})$`)
+// on whole decimal numerals and truth values, as that module's source has it (reviewed: convert/LongConverter.go,
+// StringConverter.go of v1.0.8): a whole number is printed with strconv.FormatInt; a text is read as
+// int64(strconv.ParseFloat(text)) - exact below 2^53, rounded beyond; a plain whole number read as a time span counts
+// milliseconds (in the host's int64 nanoseconds).
+var reWholeText = regexp.MustCompile(`^(0|-?[1-9][0-9]{0,18})$`)
 
 func convNumerals(m *mach, fn *ssa.Function, args []mv) (mv, bool) {
 	if fn.Signature.Recv() == nil || len(args) != 2 || !strings.HasSuffix(fnFullName(fn), "Converter."+fn.Name()) || !strings.Contains(fnFullName(fn), "commons-gox/convert.") {
@@ -71,14 +76,17 @@ func convNumerals(m *mach, fn *ssa.Function, args []mv) (mv, bool) {
 		if !reWholeText.MatchString(s) {
 			return 0, false
 		}
-		n, err := strconv.ParseInt(s, 10, 64)
-		return n, err == nil && n < int64(1)<<53 && n > -(int64(1)<<53)
+		if _, err := strconv.ParseInt(s, 10, 64); err != nil {
+			return 0, false
+		}
+		v, err := strconv.ParseFloat(s, 64)
+		return int64(v), err == nil
 	}
 	switch fn.Name() {
 	case "ToString":
 		switch x := a.(type) {
 		case int64:
-			if plain && x < int64(1)<<53 && x > -(int64(1)<<53) {
+			if plain {
 				return strconv.FormatInt(x, 10), true
 			}
 		case bool:
@@ -99,7 +107,7 @@ func convNumerals(m *mach, fn *ssa.Function, args []mv) (mv, bool) {
 		}
 	case "ToDuration":
 		if s, ok := a.(string); ok {
-			if n, ok := whole(s); ok {
+			if n, ok := whole(s); ok && n < int64(1)<<53 && n > -(int64(1)<<53) {
 				return n * 1000000, true // time.Duration(n) * time.Millisecond in the host's arithmetic
 			}
 		}
